@@ -32,7 +32,7 @@ def gen(rng, tier, i):
     sc = Scenario(rng)
     mode = rng.choice(["mem", "mem", "mem", "kbuf", "ksplice", "ksplice"])
     if mode == "mem":
-        lk = rng.choice(["http", "http", "https", "socks5", "socks5p", "socks4", "reverse"])
+        lk = rng.choice(["http", "http", "https", "socks5", "socks5p", "socks4", "reverse", "tproxy"])
         ck = rng.choice(["direct", "direct", "http", "socks5", "https", "socks4"])
         cname, chaos = G.pick_chaos(rng, weights=(("none", 1), ("mild", 3), ("heavy", 2)))
         if chaos:
@@ -41,7 +41,7 @@ def gen(rng, tier, i):
         sc.net["spawn_yield"] = rng.choice([0, 300])
         Gus = 3_000_000
     else:
-        lk = rng.choice(["http", "socks5", "socks4", "reverse"])
+        lk = rng.choice(["http", "socks5", "socks4", "reverse", "tproxy"])
         ck = rng.choice(["direct", "direct", "http", "socks5"])
         sc.net["backend"] = "kernel"
         cname = "kernel"
